@@ -32,6 +32,8 @@ pub const STATUS: i32 = 7;
 pub struct Case {
     env: usize,
     exported: bool,
+    /// the name was a shell-local variable first and was exported afterwards with its current value (the stale local copy is still stored)
+    shadow: bool,
     quote: u8, // 0 unquoted, 1 double, 2 single
     segs: Vec<usize>,
 }
@@ -53,7 +55,7 @@ impl Case {
 impl CaseRepr for Case {
     fn repr(&self) -> Value {
         let e = ENVS[self.env];
-        json!({"line": self.line(), "env": {"label": e.0, "A": e.1, "AB": e.2, "B": e.3, "exported": self.exported, "previous_status": STATUS}})
+        json!({"line": self.line(), "env": {"label": e.0, "A": e.1, "AB": e.2, "B": e.3, "exported": self.exported, "local_then_exported": self.shadow, "previous_status": STATUS}})
     }
 }
 
@@ -115,7 +117,10 @@ fn install(c: &Case, sh: &mut vh::Shell) -> BTreeMap<&'static str, &'static str>
     let mut m = BTreeMap::new();
     for (name, val) in [("A", e.1), ("AB", e.2), ("B", e.3)] {
         std::env::remove_var(name);
-        if c.exported {
+        if c.shadow {
+            sh.set_env(name, "STALE-LOCAL-VALUE");
+            std::env::set_var(name, val);
+        } else if c.exported {
             std::env::set_var(name, val);
         } else {
             sh.set_env(name, val);
@@ -185,7 +190,7 @@ fn run_case(c: &Case, acc: &mut Acc) {
             forms.push("$$");
         }
         acc.violation(
-            &format!("argv:{}:{}:{}:{}", qn, envl, if c.exported { "exported" } else { "local" }, forms.join("+")),
+            &format!("argv:{}:{}:{}:{}", qn, envl, if c.shadow { "local-then-exported" } else if c.exported { "exported" } else { "local" }, forms.join("+")),
             c.repr(),
             json!({"argv": if c.quote == 2 { vec![word.clone()] } else { vec![expanded.clone()] }, "note": "unquoted: this text as one argument or split at blanks"}),
             json!({ "argv": argv }),
@@ -206,7 +211,7 @@ fn cases(nsegs: usize, envs: &'static [usize]) -> Box<dyn Iterator<Item = Case>>
         for &env in envs {
             for exported in [true, false] {
                 for quote in 0..3u8 {
-                    v.push(Case { env, exported, quote, segs: segs.clone() });
+                    v.push(Case { env, exported, shadow: false, quote, segs: segs.clone() });
                 }
             }
         }
@@ -240,6 +245,14 @@ pub fn run(ctx: &Ctx) -> Value {
     for n in 1..=3usize {
         steps.push((format!("words of {} segments x 9 envs x exported/local x 3 quote forms", n), Box::new(move || cases(n, &ALL_ENVS))));
     }
+    // a name that was a local variable first and was exported afterwards: the exported value is the current one
+    let nshadow = if ctx.thorough() { 3 } else { 2 };
+    steps.push((format!("words of 1..{} segments x 9 envs, names local then exported, 3 quote forms", nshadow), Box::new(move || {
+        Box::new((1..=nshadow).flat_map(|n| cases(n, &ALL_ENVS)).filter(|c| c.exported).map(|mut c| {
+            c.shadow = true;
+            c
+        }))
+    })));
     if ctx.thorough() {
         steps.push(("words of 4 segments x 9 envs".into(), Box::new(|| cases(4, &ALL_ENVS))));
         steps.push(("words of 5 segments x self/mutual/regex envs".into(), Box::new(|| cases(5, &HOT_ENVS))));
